@@ -72,6 +72,31 @@ fn run_case(cx: &CaseCtx, rep: &mut Report) {
 	let mut probes = crate::check::probe_set(&known_map, &mut rng, if heavy { 3 } else { 40 });
 	if heavy {
 		probes = probes.into_iter().filter(|k| k.0 <= 2).collect();
+		// a generating source has tiles on every level: its deepest ones are part of what it "can return"
+		let m31 = u32::MAX >> 1;
+		probes.extend([(31u8, 0u32, 0u32), (31, m31, m31), (31, 1153675936 & m31, 704474368), (30, 5, 7), (30, m31 >> 1, 0)]);
+	}
+	if kname.ends_with("pmtiles") {
+		// PMTiles addresses tiles by one running id: coordinates whose id lies a multiple of 2^32 (2^16, 2^24) behind a
+		// stored tile — far outside the coverage, but "near" in any arithmetic that narrows ids
+		let ids: Vec<u64> = b.known.iter().map(|k| crate::codec::ipm::zxy_to_id(k.0, k.1, k.2)).collect();
+		let mut picks: Vec<u64> = vec![];
+		if let (Some(a), Some(z)) = (ids.iter().min(), ids.iter().max()) {
+			picks.extend([*a, *z]);
+		}
+		for _ in 0..6 {
+			if !ids.is_empty() {
+				picks.push(*rng.pick(&ids));
+			}
+		}
+		for id in picks {
+			for d in [1u64 << 32, 2u64 << 32, 1u64 << 16, 1u64 << 24, (1u64 << 32) + 1, (1u64 << 33) - 1] {
+				if let Some(k) = id.checked_add(d).and_then(crate::codec::ipm::id_to_zxy) {
+					probes.insert(k);
+				}
+			}
+		}
+		rep.count("pmtiles_probes_at_far_ids", 1);
 	}
 	let reader = &b.reader;
 	let fut = async {
